@@ -117,6 +117,23 @@ func check(c Case) error {
 	} else {
 		// related calls first, results discarded: the same letters banned as one sequence, as other pieces, in
 		// another order - the judged call's result must depend on its own arguments only
+		// ... and the same numbers and bans with functions of the same code that hold other values (a function is
+		// code plus what it captured: here every filter accepts everything)
+		otherFunctions := func() {
+			if len(funcs) == 0 || c.Order > 7 {
+				return
+			}
+			relaxed := make([]func(string) bool, len(funcs))
+			for i := range relaxed {
+				relaxed[i] = Filter{Kind: "accept everything"}.Accept
+			}
+			defer func() { _ = recover() }()
+			_ = primers.CreateBarcodesWithBannedSequences(c.Length, c.Order, c.Bans, relaxed)
+		}
+		functionsLast := (len(c.Bans)+c.Length+c.Order)%2 == 0
+		if !functionsLast {
+			otherFunctions()
+		}
 		if len(c.Bans) > 0 && c.Order <= 7 {
 			joined := strings.Join(c.Bans, "")
 			var variants [][]string
@@ -151,6 +168,9 @@ func check(c Case) error {
 					}()
 				}
 			}
+		}
+		if functionsLast {
+			otherFunctions()
 		}
 		got = primers.CreateBarcodesWithBannedSequences(c.Length, c.Order, c.Bans, funcs)
 	}
